@@ -310,6 +310,71 @@ func Generate(o Opts) (lines []string, err error) {
 					return nil, fmt.Errorf("export of version %d: %w", v, err)
 				}
 			}
+		case x < 85 && lat > 0:
+			// export a retained version, import it into an empty store, go on there
+			av := d.tree.AvailableVersions()
+			e.Op, e.T, e.Fast = "import", int64(av[rng.Intn(len(av))]), rng.Intn(2) == 0
+			it, err := d.tree.GetImmutable(e.T)
+			if err != nil {
+				return nil, fmt.Errorf("GetImmutable(%d) of an available version: %w", e.T, err)
+			}
+			x, err := it.Export()
+			if err != nil {
+				return nil, fmt.Errorf("Export: %w", err)
+			}
+			compress := rng.Intn(2) == 0
+			var src iavl.NodeExporter = x
+			if compress {
+				src = iavl.NewCompressExporter(x)
+			}
+			var nodes []*iavl.ExportNode
+			for {
+				n, err := src.Next()
+				if errors.Is(err, iavl.ErrorExportDone) {
+					break
+				}
+				if err != nil {
+					x.Close()
+					return nil, fmt.Errorf("Exporter.Next: %w", err)
+				}
+				nodes = append(nodes, n)
+			}
+			x.Close()
+			_ = d.tree.Close()
+			d.db = dbm.NewMemDB()
+			d.tree = nil
+			if _, err := d.open(e.Fast); err != nil {
+				return nil, fmt.Errorf("Load() of the empty target store: %w", err)
+			}
+			imp, err := d.tree.Import(e.T)
+			if err != nil {
+				return nil, fmt.Errorf("Import(%d): %w", e.T, err)
+			}
+			var dst iavl.NodeImporter = imp
+			if compress {
+				dst = iavl.NewCompressImporter(imp)
+			}
+			for _, n := range nodes {
+				if err := dst.Add(n); err != nil {
+					imp.Close()
+					return nil, fmt.Errorf("Importer.Add: %w", err)
+				}
+			}
+			if err := imp.Commit(); err != nil {
+				return nil, fmt.Errorf("Importer.Commit: %w", err)
+			}
+			imp.Close()
+			// the importing handle goes on at the imported version
+			if _, err := d.tree.LoadVersion(e.T); err != nil {
+				return nil, fmt.Errorf("LoadVersion(%d) after the import: %w", e.T, err)
+			}
+			it2, err := d.tree.GetImmutable(e.T)
+			if err != nil {
+				return nil, fmt.Errorf("GetImmutable(%d) after the import: %w", e.T, err)
+			}
+			if e.Exp, err = d.export(it2); err != nil {
+				return nil, fmt.Errorf("export of the imported version: %w", err)
+			}
 		case x < 89:
 			// iteration over [s, e) of the working tree or of a retained version
 			e.Op, e.T, e.S, e.E, e.Asc = "iter", -1, rng.Intn(o.K+2)-1, rng.Intn(o.K+2)-1, rng.Intn(2) == 0
